@@ -97,6 +97,16 @@ func scenarioC16(r *Run) {
 		switch {
 		case op <= 1 || len(live) == 0:
 			s := g.Session(p, SessShape{UEAlloc: r.Ch.Choose(3, "ua") == 1, TEIDChoose: r.Ch.Choose(2, "ch") == 1, NQER: r.Ch.Choose(4, "nq"), ExtraPDRs: r.Ch.Choose(3, "ex"), Wide: true})
+			if len(s.PDRs) >= 2 && r.Ch.Choose(6, "explicit-match-all") == 1 {
+				// the default flow written out as a filter that matches everything, at one
+				// of the ends of the precedence range
+				all := &FlowSpec{Valid: true, Dir: "out", Proto: -1, UESide: "assigned", Text: "permit out ip from any to assigned"}
+				prec := []uint32{65535, 0, 255}[r.Ch.Choose(3, "match-all-prec")]
+				for _, pd := range s.PDRs[:2] {
+					pd.SDF, pd.Precedence = all, prec
+				}
+				r.Probe("explicit-match-all-filter")
+			}
 			if r.Ch.Choose(6, "ul-drop") == 1 {
 				// uplink traffic of the session is to be dropped
 				*s.FAR(1) = FARSpec{ID: 1, Action: ActDROP, DstIface: IfCore, HasFwd: true}
